@@ -442,6 +442,9 @@ func (c *c01) judge(cs *Case, r *Result, plan []simrt.PlannedFault) *Case {
 		return v
 	}
 	if r.Panic != "" {
+		if r.PanicKind == "deadlock" {
+			return mk("hang", r.PanicSig, "the execution wants a lock that nobody will ever release (leaked by an earlier execution of this process, or held by itself): stage "+r.Stage)
+		}
 		if r.PanicKind == "budget" {
 			return mk("nontermination", r.PanicSig, fmt.Sprintf("hard step budget reached in stage %s after %d steps, %d fs calls", r.Stage, r.Ticks, r.FSCalls))
 		}
@@ -451,6 +454,21 @@ func (c *c01) judge(cs *Case, r *Result, plan []simrt.PlannedFault) *Case {
 		site := c.recoverSites[r.RecoveredRuntimeSite]
 		return mk("runtime-fault-as-diagnostic", "raised-in:"+r.RecoveredRuntimeOrigin+",recovered-in:"+site,
 			fmt.Sprintf("a Go runtime fault was recovered at %s and turned into a result: %s (verdict accepted=%v msg=%q)", site, r.RecoveredRuntimeMsg, r.Accepted, r.Msg))
+	}
+	if r.LeakedLocks > 0 {
+		// the project was processed, but a lock is still held: the next project of this process hangs.
+		// Show it with a probe parse, report, and ask the driver for a fresh worker process.
+		probe := Project{Root: "/sim/probe/main.jst", Cwd: "/sim/cwd"}
+		probe.set(probe.Root, []byte(warmDoc))
+		pr, _, _ := execute(&probe, Opts{FixedSeed: true}, refEnv, nil, 1, nil)
+		detail := fmt.Sprintf("%d lock(s) still held after the execution returned (verdict accepted=%v msg=%q)", r.LeakedLocks, r.Accepted, r.Msg)
+		sig := "lock-leaked"
+		if pr.PanicKind == "deadlock" {
+			detail += "; the next project processed in this process blocks forever: " + pr.PanicSig
+			sig = "lock-leaked," + pr.PanicSig
+		}
+		needRestart = true
+		return mk("hang", sig, detail)
 	}
 	for _, m := range []string{r.Msg, r.NewErr, r.SerErr} {
 		if strings.Contains(m, "runtime error:") {
